@@ -27,6 +27,7 @@ from .base_protocol import BaseProtocol
 from .client_exceptions import (
     ClientConnectionError,
     ClientOSError,
+    ClientPayloadError,
     ClientResponseError,
     ContentTypeError,
     InvalidURL,
@@ -981,7 +982,11 @@ class ClientRequestBase:
 
         task: asyncio.Task[None] | None
         if self._should_write(protocol):
-            coro = self._write_bytes(writer, conn, self._get_content_length())
+            content_length = self._get_content_length()
+            # The writer counts the declared length down as the body goes out, so
+            # that _write_bytes() notices a body source that ends too early.
+            writer.length = content_length
+            coro = self._write_bytes(writer, conn, content_length)
             if sys.version_info >= (3, 12):
                 # Optimization for Python 3.12, try to write
                 # bytes immediately to avoid having to schedule
@@ -1497,6 +1502,16 @@ class ClientRequest(ClientRequestBase):
                 await writer.drain()
                 await self._continue
             await self._body.write_with_length(writer, content_length)
+            missing = writer.length if content_length is not None else None
+            if type(missing) is int and missing > 0:
+                # The source (a file that was truncated, a BytesIO that shrank)
+                # ended before the announced Content-Length was written: the
+                # message cannot be completed, so the request fails and the
+                # connection is not used any further.
+                raise ClientPayloadError(
+                    f"Request body ended {missing} bytes short of "
+                    f"Content-Length: {content_length}"
+                )
         except OSError as underlying_exc:
             reraised_exc = underlying_exc
 
